@@ -138,3 +138,48 @@ Theorem C07_layout_needed :
 Proof. exact edit_D11_refuted. Qed.
 Print Assumptions C07_layout_needed.
 
+
+(* ---- command line (appended): `torrentfile edit` hands edit_torrent a request in which exactly the
+   named fields are not Keep.  `edit_args` / `edit_map` / `edit_metafile_attr` are GENERATED on this
+   run from cli.py (the edit sub-parser) and commands.py (commands.edit) into Gen/GenCli.v;
+   `run_edit_request argv` = argparse model on the generated table, then the generated mapping, read
+   as a request of Model/Edit.v.  `items`: the flags with their values in any order, repetitions
+   allowed; the metafile path stands after the first `pos` of them.  `edit_argv_ok`: no value
+   begins with "-", list flags have a value, the path does not directly follow a list flag. *)
+From TF Require Import Model.ArgParse Model.RoutesEdit Model.RoutesRun Gen.GenCli Proofs.EditCli.
+
+Theorem C07_edit_table_ok_sound :
+  forall table emap mattr, edit_table_ok table emap mattr = true ->
+  forall items pos mf, edit_argv_ok items pos mf = true ->
+  exists req, edit_request_of table emap mattr (render_edit items pos mf) = Some req
+              /\ forall f, rq_of f req = Keep <-> (forall it, In it items -> item_field it <> f).
+Proof. exact cli_unnamed_is_keep. Qed.
+Print Assumptions C07_edit_table_ok_sound.
+
+Theorem C07_edit_table_ok : edit_table_ok edit_args edit_map edit_metafile_attr = true.
+Proof. exact gen_edit_table_ok. Qed.
+Print Assumptions C07_edit_table_ok.
+
+Theorem C07_cli_unnamed_is_keep :
+  forall items pos mf, edit_argv_ok items pos mf = true ->
+  exists req, run_edit_request (render_edit items pos mf) = Some req
+              /\ forall f, rq_of f req = Keep <-> (forall it, In it items -> item_field it <> f).
+Proof. exact gen_cli_unnamed_is_keep. Qed.
+Print Assumptions C07_cli_unnamed_is_keep.
+
+Theorem C07_cli_named_take_value :
+  forall items pos mf, edit_argv_ok items pos mf = true ->
+  exists ea req, run_edit_parse (render_edit items pos mf) = ER_ok (VStr mf) ea
+                 /\ run_edit_request (render_edit items pos mf) = Some req
+                 /\ forall f it, last_item f items = Some it -> rq_of f req = item_req it.
+Proof. exact gen_cli_named_take_value. Qed.
+Print Assumptions C07_cli_named_take_value.
+
+(* D10 as pinned ("private": args.private): rejected by the checker; witness argv_D10 = `edit m.torrent --comment x` *)
+Theorem C07_cli_every_edit_sets_private_refuted :
+  edit_table_ok edit_args edit_map_D10 edit_metafile_attr = false
+  /\ exists req, edit_request_of edit_args edit_map_D10 edit_metafile_attr
+                   argv_D10 = Some req
+                 /\ rq_private req <> Keep.
+Proof. exact C07_cli_unnamed_is_keep_refuted_D10. Qed.
+Print Assumptions C07_cli_every_edit_sets_private_refuted.
